@@ -137,7 +137,7 @@ def run(ctx, prop):
                   pool.submit(ctx.model_check, "MC_News", "MC_News_deep_tree.cfg", 1800, 4, False)]
     design.append(pool.submit(mutant))
     # 2. behaviours -> scripts -> real code -> log -> trace validation, batch by batch
-    batches = [("Gen_News.cfg", 400, 15)] if quick else [("Gen_News.cfg", 700, 15)] * 5 + [("Gen_News_long.cfg", 350, 30)] * 3
+    batches = [("Gen_News.cfg", 300, 15)] if quick else [("Gen_News.cfg", 700, 15)] * 5 + [("Gen_News_long.cfg", 350, 30)] * 3
     total_scripts, ops, nviol = 0, {}, 0
     for b, (cfg, nsim, depth) in enumerate(batches):
         _, items = ctx.generate("MC_News", cfg, "gen%d.ndjson" % b, simulate=nsim, depth=depth, extra_seed=1800 + b, timeout=900)
